@@ -1698,7 +1698,16 @@ class Memoer(Tymee):
             # if mid then grams dict at mid must not be empty
             if not mid in self.counts:  # missing first gram so skip
                 continue
-            memo = self.fuse(self.rxgs[mid], self.counts[mid])
+            try:
+                memo = self.fuse(self.rxgs[mid], self.counts[mid])
+            except UnicodeDecodeError as ex:  # complete but not text so drop
+                logger.error("Invalid Memoer memo from %s.\n %s.",
+                             self.sources.get(mid), ex)
+                del self.rxgs[mid]
+                del self.counts[mid]
+                self.sources.pop(mid, None)
+                self.vids.pop(mid, None)
+                continue
             if memo is not None:  # allows for empty "" memo for some src
                 self.rxms.append((memo, self.sources[mid], self.vids[mid]))
                 del self.rxgs[mid]
